@@ -229,6 +229,7 @@ def gen_cases(rng, tier):
         rng.shuffle(rest)
         progs = fixed + rest[:900]
     cases += progs
+    cases += G.attribute_programs(rng, tier)
     texts = []
     for f in files:
         try:
